@@ -289,7 +289,10 @@ impl LevelManifest {
 			levels_vec.len()
 		);
 
-		// Validate last_sequence matches the maximum sequence number across all tables
+		// Validate last_sequence against the maximum sequence number across all tables.
+		// The stored value may be higher: last_sequence never moves backwards, while a
+		// compaction can drop the entries that carried the highest sequence numbers
+		// (e.g. a tombstone and everything below it at the bottom level).
 		let computed_max_seq = levels_vec
 			.iter()
 			.flat_map(|level| level.tables.iter())
@@ -297,7 +300,7 @@ impl LevelManifest {
 			.max()
 			.unwrap_or(0);
 
-		if computed_max_seq != last_sequence {
+		if computed_max_seq > last_sequence {
 			return Err(Error::LoadManifestFail(format!(
 				"Manifest last_sequence mismatch: stored={}, computed from tables={}",
 				last_sequence, computed_max_seq
